@@ -7,8 +7,8 @@
      Pop        take any block of the work list; compute, per input, the states that lead into it
      PickInput  take any not yet tried input of the popped block
      Split      split any block that overlaps the pre-image X; work-list rule exactly as written (both halves if the
-                block was pending, else the smaller half; `break` when the popped block itself was split - the remaining
-                blocks of this input are skipped, later inputs still use the stale block)
+                block was pending, else the smaller half); when the popped block itself is split the pre-image computed
+                from the block as popped keeps being used for the remaining blocks and inputs (stale block)
    Design questions (for ALL schedules, on the automata the real pipeline produced):
      Sound    no split ever separates two Nerode-equivalent states
      Minimal  on termination the partition IS the set of Nerode classes
@@ -33,6 +33,11 @@ Refine(c, P) == UNION { { { s \in B : Sig(c, P, s) = Sig(c, P, r) } : r \in B } 
 Moore(c, P) == LET Q == Refine(c, P) IN IF Q = P THEN P ELSE Moore(c, Q)
 InitParts(c) == { B \in { {DEAD}, Acc(c), (1..D[c].n) \ Acc(c) } : B # {} }
 Nerode == [c \in 1..N |-> Moore(c, InitParts(c))]
+
+\* Until the repair recorded in known_findings.json (F-hopcroft-break) the code left the loop over the overlapping blocks with
+\* `break` when the popped block itself was split.  HOPCROFT_WITHBREAK=1 explores that variant: TLC then finds schedules that
+\* end coarser than the Nerode partition (e.g. on the raw automaton of `cmd ((b | [b] | c) (c | [c]) b b) [b | b] b;`).
+WithBreak == "HOPCROFT_WITHBREAK" \in DOMAIN IOEnv
 
 VARIABLES case, parts, work, grp, pend, ov, X, pc
 vars == <<case, parts, work, grp, pend, ov, X, pc>>
@@ -63,7 +68,7 @@ Split == /\ pc = "split"
                    ELSE /\ parts' = (parts \ {P}) \cup {in, out}
                         /\ work' = IF P \in work THEN (work \ {P}) \cup {in, out}
                                    ELSE IF Cardinality(in) <= Cardinality(out) THEN work \cup {in} ELSE work \cup {out}
-                        /\ ov' = IF P = grp THEN {} ELSE ov \ {P}
+                        /\ ov' = IF P = grp /\ WithBreak THEN {} ELSE ov \ {P}
                         /\ pc' = "split"
          /\ UNCHANGED <<case, grp, pend, X>>
 Next == Pop \/ Finish \/ PickInput \/ Split
